@@ -106,6 +106,13 @@ def builders(ctx, pfx, A, ev, loops3, ci, oi, chain_first, value_of, nd, sp, n_t
         lh = linner.lh[dk[0]]
         exp = T.app('upd', lh, j, T.app('post0', T.app(APPEND, index_term(lh, j), value_of(j))))
         okd = canon_nd(linner.next[dk[0]], ctx.extra.get('_ranks', {})) is exp and dim_count_ok(n_term if n_term is not None else linner.n, nd, loops3, ctx.extra.get('_ranks', {}))
+    if len(dk) == 1:
+        lout_ = loops3[0]
+        ok0 = [x for x in lout_.lh if keyrepr(x) == keyrepr(dk[0])]
+        cnt = seq_len(strip_eff(lout_.init[ok0[0]])) if ok0 and isinstance(lout_.init.get(ok0[0]), T.Tm) else None
+        ctx.check(pfx + '.values.builder_count', A, 'dim-builders', cnt is not None and canon_nd(cnt, ctx.extra.get('_ranks', {})) is canon_nd(nd, ctx.extra.get('_ranks', {})),
+                  expected='exactly n_dims value builders (one per dim_j column of the schema)', found=show(cnt) if cnt is not None else 'builder vector not identified', sp=sp,
+                  why='a builder more or less than the schema has columns makes every export fail (or drop a column): nothing round-trips')
     ctx.check(pfx + '.values.dims', A, 'dim-columns', okd, expected='dim builder j receives element j of the (chain, observation) cell, for every j < n_dims', found=show(linner.next[dk[0]])[:300] if dk else 'no builder vector', sp=linner.sp,
               why='column dim_j holds exactly the stored values')
     if not (ok_rows and len(dk) == 1):
